@@ -10,3 +10,11 @@
 #undef TMCG_MAX_FPOWM_T
 #define TMCG_MAX_FPOWM_T VERIF_MAX_FPOWM_T
 #endif
+#ifdef VERIF_MAX_PLAYERS
+#undef TMCG_MAX_PLAYERS
+#define TMCG_MAX_PLAYERS VERIF_MAX_PLAYERS
+#endif
+#ifdef VERIF_MAX_TYPEBITS
+#undef TMCG_MAX_TYPEBITS
+#define TMCG_MAX_TYPEBITS VERIF_MAX_TYPEBITS
+#endif
